@@ -30,7 +30,7 @@ RULE = (
     ">= 1 merge."
 )
 ASSUMPTIONS = ["reference models refmodel/graphs.py (clade-based display test, naive partitions)", "ete3 tree container"]
-BUDGET = {"quick": 200, "thorough": 1800}
+BUDGET = {"quick": 600, "thorough": 1800}
 LEAVES = "abcdef"
 
 
